@@ -127,7 +127,7 @@ def metamorphic_search(ctx, shim, r, per_font, pc, pt, only_aat, name, verifier,
         if o["status"] in ("ok", "DIFF"):
             cuts += len(o["pieces"]) - 1
         if o["status"] == "DIFF":
-            cls = classify(s, kind)
+            cls = classify(s, kind, o)
             if cls: known.setdefault(cls, []).append((len(s.text), s, o))
             else: bad.append((len(s.text), s, o))
         elif o["status"] in ("noresult", "piecefail"):
@@ -136,9 +136,13 @@ def metamorphic_search(ctx, shim, r, per_font, pc, pt, only_aat, name, verifier,
                 bad.append((len(s.text), s, dict(o, status="crash", diff="crash: " + rw[:200], recon=[], whole=o.get("whole") or [])))
     checked = stat.get("ok", 0) + stat.get("DIFF", 0)
 
-    def describe(s, o):
+    def describe(s, o, cls=None):
         if o["status"] == "DIFF":
-            s, o = F.shrink(shim, s, verifier)
+            # shrink inside the class: a candidate counts only if it still differs AND is attributed to the same class
+            def same_class(shim_, cands):
+                return [dict(x, status="other-class") if x and x["status"] == "DIFF" and classify(c, kind, x) != cls else x
+                        for c, x in zip(cands, verifier(shim_, cands))]
+            s, o = F.shrink(shim, s, same_class)
         rp = s.describe()
         if s.g.get("synthetic"):
             rp.update({"font_recipe": s.g["recipe"], "font_profile": s.g["profile"]})
@@ -160,7 +164,7 @@ def metamorphic_search(ctx, shim, r, per_font, pc, pt, only_aat, name, verifier,
     kn = {}
     for cls, xs in known.items():
         xs.sort(key=lambda x: x[0])
-        rp, txt, o2 = describe(xs[0][1], xs[0][2])
+        rp, txt, o2 = describe(xs[0][1], xs[0][2], cls)
         kn[cls] = {"count": len(xs), "example": rp}
         # a documented finding class: reported as a violation whose replay carries the class; known_findings.json
         # (committed, never written at run time) turns it into a KNOWN-FINDING line
@@ -209,6 +213,14 @@ def break_fraction_search(ctx, shim, r, nfonts, per_font, pc, pt):
                        "0/1; then as break-safety-ot",
                        groups=F.fraction_groups(r, nfonts), make=lambda r, g, fl, k: F.make_fraction_shaping(r, g, fl),
                        classify=F.fraction_known_class)
+
+
+def break_stch_search(ctx, shim, r, nfonts, per_font, pc, pt):
+    metamorphic_search(ctx, shim, r, per_font, pc, pt, False, "break-safety-stch", F.verify_break, [0, 0, pc, pc | pt],
+                       "breaking at unflagged cluster starts changes the result",
+                       F.STCH_RULE + "then as break-safety-ot",
+                       groups=F.stch_groups(r, nfonts), make=lambda r, g, fl, k: F.make_stch_shaping(r, g, fl),
+                       classify=F.stch_known_class)
 
 
 def break_di_search(ctx, shim, r, nfonts, per_font, pc, pt):
@@ -328,6 +340,7 @@ def run(ctx):
     break_synth_search(ctx, shim, ctx.rng("break-synth"), ctx.budget(200, 4000), 12, pc, pt)
     break_fraction_search(ctx, shim, ctx.rng("break-fraction"), ctx.budget(20, 300), ctx.budget(20, 60), pc, pt)
     break_di_search(ctx, shim, ctx.rng("break-di"), ctx.budget(150, 3000), 16, pc, pt)
+    break_stch_search(ctx, shim, ctx.rng("break-stch"), ctx.budget(100, 2000), 12, pc, pt)
     break_search(ctx, shim, ctx.rng("break-ot"), ctx.budget(60, 1200), pc, pt, False, "break-safety-ot")
     break_search(ctx, shim, ctx.rng("break-aat"), ctx.budget(150, 4000), pc, pt, True, "break-safety-aat")
 
